@@ -11,7 +11,8 @@ extern mzd_t const *vg_tri;
 
 /* right-hand TRSM: T square n x n, B m x n; left-hand: T square m x m, B m x n; B not empty */
 #define TRSM_R(T, B) (SHP(T) && SHP(B) && NE(B) && (T)->nrows == (T)->ncols && (T)->nrows == (B)->ncols)
-#define TRSM_L(T, B) (SHP(T) && SHP(B) && NE(B) && (T)->nrows == (T)->ncols && (T)->ncols == (B)->nrows)
+/* (left variants: a triangle of order 0 -- rank 0 in the PLUQ solve -- is admitted; B must have columns: with none the base case indexes word -1) */
+#define TRSM_L(T, B) (SHP(T) && SHP(B) && (B)->ncols >= 1 && (T)->nrows == (T)->ncols && (T)->ncols == (B)->nrows)
 #define CUT_OK(c) ((c) >= 0 && (c) <= (1 << 28))
 
 void _mzd_trsm_upper_right_base(mzd_t const *U, mzd_t *B)
@@ -69,6 +70,18 @@ __CPROVER_assigns(vg_live, vg_tri)
 __CPROVER_ensures(FRESH_HDR(__CPROVER_return_value) && __CPROVER_return_value->nrows == (A->nrows < A->ncols ? A->nrows : A->ncols) &&
                   __CPROVER_return_value->ncols == __CPROVER_return_value->nrows && !WINDOWED(__CPROVER_return_value))
 __CPROVER_ensures(vg_live == __CPROVER_old(vg_live) + 1 && vg_tri == __CPROVER_return_value);
+
+/* checked public wrappers (left-hand triangle): die on non-conforming operands, otherwise the worker's contract */
+#ifndef VP_SOLVE_TRACE
+void mzd_trsm_lower_left(mzd_t const *L, mzd_t *B, const int cutoff)
+__CPROVER_requires(TRSM_L(L, B) && CUT_OK(cutoff)) __CPROVER_assigns(vg_live, vg_tri) __CPROVER_ensures(vg_live == __CPROVER_old(vg_live));
+void mzd_trsm_upper_left(mzd_t const *U, mzd_t *B, const int cutoff)
+__CPROVER_requires(TRSM_L(U, B) && CUT_OK(cutoff)) __CPROVER_assigns(vg_live, vg_tri) __CPROVER_ensures(vg_live == __CPROVER_old(vg_live));
+#endif
+void mzd_trsm_upper_right(mzd_t const *U, mzd_t *B, const int cutoff)
+__CPROVER_requires(TRSM_R(U, B) && CUT_OK(cutoff)) __CPROVER_assigns(vg_live, vg_tri) __CPROVER_ensures(vg_live == __CPROVER_old(vg_live));
+void mzd_trsm_lower_right(mzd_t const *L, mzd_t *B, const int cutoff)
+__CPROVER_requires(TRSM_R(L, B) && CUT_OK(cutoff)) __CPROVER_assigns(vg_live, vg_tri) __CPROVER_ensures(vg_live == __CPROVER_old(vg_live));
 
 #ifdef VP_TRI_GHOST
 #define TRI_KNOWN(U) (vg_tri == (U))
